@@ -561,8 +561,9 @@ class EvalFunc:
                         pyscript_service_factory(func_name, self),
                         dec_kwargs.get("supports_response", SupportsResponse.NONE),
                     )
-                    async_set_service_schema(Function.hass, domain, name, service_desc)
+                    # record the name first: if the description is rejected, trigger_stop() must find it
                     self.trigger_service.add(srv_name)
+                    async_set_service_schema(Function.hass, domain, name, service_desc)
                 continue
 
             if dec_name == "webhook_trigger" and "methods" in dec_kwargs:
